@@ -43,6 +43,8 @@ pub(crate) mod db;
 pub(crate) mod engine;
 pub(crate) mod global;
 pub(crate) mod server;
+#[cfg(brc20_prog_verif)]
+pub mod verif;
 
 pub use api::Brc20ProgApiClient;
 pub use global::Brc20ProgConfig;
